@@ -37,9 +37,16 @@ def _run_sync(
     :param target: function to execute.
     :param args: list of function's args.
     :param kwargs: dict of function's kwargs.
+    :raises RuntimeError: if the function raised StopIteration.
     :return: result of function's execution.
     """
-    return target(*args, **kwargs)
+    try:
+        return target(*args, **kwargs)
+    except StopIteration as exc:
+        # StopIteration can't be set as an exception of a future,
+        # the task would wait for its result forever.
+        # Python does the same for coroutines and generators.
+        raise RuntimeError("Task function raised StopIteration") from exc
 
 
 class Receiver:
